@@ -97,6 +97,14 @@ func (e *Engine) switchTo(me, t *Thread) {
 // subject to the preemption bound.
 func (e *Engine) Yield() {
 	if len(e.threads) == 1 {
+		e.explicitYield = false
+		return
+	}
+	// coarse scheduling: only explicit harness yield points (tier/storage operations of
+	// the doubles) are preemption points; sync intercepts keep their blocking semantics
+	explicit := e.explicitYield
+	e.explicitYield = false // consumed here: the flag must not leak to the thread we switch to
+	if e.cfg.Bounds["coarse_sched"] != 0 && !explicit {
 		return
 	}
 	me := e.cur
@@ -132,6 +140,9 @@ func (e *Engine) Yield() {
 	if meRunnable && c != me.id {
 		e.preempts++
 	}
+	if DebugForks {
+		fmt.Printf("ESCHED[%d] yield cur=%d -> %d opts=%v\n", len(e.sched), me.id, c, opts)
+	}
 	e.sched = append(e.sched, c)
 	if c != me.id {
 		e.switchTo(me, e.threads[c])
@@ -156,6 +167,9 @@ func (e *Engine) Block(cond func() bool, what string) {
 			panic(pathEnd{"deadlock", fmt.Sprintf("thread %d (%s) blocked forever on %s; no runnable thread", me.id, me.name, what)})
 		}
 		c := e.chooseAmong(opts)
+		if DebugForks {
+			fmt.Printf("ESCHED[%d] block(%s) cur=%d -> %d\n", len(e.sched), what, me.id, c)
+		}
 		e.sched = append(e.sched, c)
 		e.switchTo(me, e.threads[c])
 		me.blocked = nil
@@ -179,6 +193,9 @@ func (e *Engine) Quiesce() int {
 			break
 		}
 		c := e.chooseAmong(opts)
+		if DebugForks {
+			fmt.Printf("ESCHED[%d] quiesce cur=%d -> %d\n", len(e.sched), me.id, c)
+		}
 		e.sched = append(e.sched, c)
 		e.switchTo(me, e.threads[c])
 	}
@@ -268,6 +285,9 @@ func (e *Engine) threadExit(t *Thread) {
 	}()
 	if c < 0 {
 		return
+	}
+	if DebugForks {
+		fmt.Printf("ESCHED[%d] exit of %d -> %d\n", len(e.sched), t.id, c)
 	}
 	e.sched = append(e.sched, c)
 	e.cur = e.threads[c]
